@@ -20,7 +20,7 @@ type Term struct {
 	Args []*Term
 	C    constant.Value // Op == "const"
 	Nil  bool           // Op == "const": the nil constant
-	Loc  *Loc           // Op == "&": reference to an abstract object
+	Loc  *Loc           // Op == "ref": reference to an abstract object
 	s    string
 }
 
@@ -47,7 +47,7 @@ func constTerm(c constant.Value) *Term { return &Term{Op: "const", C: c} }
 
 var nilTerm = &Term{Op: "const", Nil: true}
 
-func refTerm(l *Loc) *Term { return &Term{Op: "&", Loc: l} }
+func refTerm(l *Loc) *Term { return &Term{Op: "ref", Loc: l} }
 
 // String renders the canonical form.
 func (t *Term) String() string {
@@ -67,7 +67,7 @@ func (t *Term) String() string {
 		} else {
 			s = t.C.ExactString()
 		}
-	case "&":
+	case "ref":
 		s = "&" + t.Loc.key()
 	default:
 		if len(t.Args) == 0 {
